@@ -22,6 +22,8 @@ import pexpect.popen_spawn as PO
 import pexpect.socket_pexpect as SK
 import ptyprocess.ptyprocess as PP
 
+PP._make_eof_intr()      # normally done by PtyProcess.__init__ (instances are built without forking here)
+
 ENCODES = ['pexpect.spawnbase.SpawnBase._log', 'pexpect.spawnbase.SpawnBase.read_nonblocking',
            'pexpect.pty_spawn.spawn.send', 'pexpect.pty_spawn.spawn._log_control', 'pexpect.pty_spawn.spawn.sendcontrol',
            'pexpect.fdpexpect.fdspawn.send', 'pexpect.popen_spawn.PopenSpawn.send',
@@ -153,10 +155,12 @@ def _history(tr, uni, lf, lr, ls, ops, a, b):
 
     class _OS:
         linesep = '\n'
+        name = 'posix'
         read = staticmethod(peer.read)
         write = staticmethod(peer.write)
     payloads = [a, b, a]
-    with patched(SB, os=_OS), patched(PS, os=_OS, select_ignore_interrupts=sel), patched(FD, os=_OS, select_ignore_interrupts=sel):
+    with patched(SB, os=_OS), patched(PS, os=_OS, select_ignore_interrupts=sel), \
+            patched(FD, os=_OS, select_ignore_interrupts=sel), patched(PO, time=Clock(0)):
         for k, op in enumerate(ops):
             if op == 0:
                 got = sp.read_nonblocking(2, 0) if tr != 0 else SB.SpawnBase.read_nonblocking(sp, 2)
